@@ -12,6 +12,7 @@ import math
 import numpy as np
 
 from sx import symnp as _symnp
+from sx.logic import NOT, AND, OR, IMPLIES
 from sx.runner import Unit
 
 ID = "C17"
@@ -88,7 +89,7 @@ def make_clamp(cap):
             ok = False
         if not ok:
             ctx.cover("rejected")
-            ctx.prove((min_remove >= nlive) | (min_samples > nlive), "configurations are only rejected for min_remove >= nlive or min_samples > nlive")
+            ctx.prove(OR(min_remove >= nlive, min_samples > nlive), "configurations are only rejected for min_remove >= nlive or min_samples > nlive")
             return
         if mut != "noconfig":
             pass
@@ -108,7 +109,7 @@ def make_clamp(cap):
         out = ins.determine_log_likelihood_threshold(s, method=["entropy", "quantile"][ctx.choice("method", 2)])
         ctx.prove(out == "threshold" and len(s.read) == 1, "the threshold is read from the sample array exactly once")
         n = s.read[0]
-        ctx.prove((n >= 0) & (n < size), "the threshold is the likelihood of one of the live samples (index in range)")
+        ctx.prove(AND(n >= 0, n < size), "the threshold is the likelihood of one of the live samples (index in range)")
         kept = size - n
         n_eff = nm if mut != "shift" else nm + 1
         n1 = _max(ctx, n_eff, 1)  # a choice of 0 is raised to 1 when min_remove >= 1
@@ -116,9 +117,9 @@ def make_clamp(cap):
         if cap and ins.draw_constant:
             capped = (kept + nlive) >= ms  # cap applied (or exactly met)
         would_leave = size - n1
-        ctx.prove(capped | ~(would_leave < min_samples) | (kept == min_samples), "if the method's choice leaves < min_samples, exactly min_samples are kept (unless the cap applies)")
-        ctx.prove(capped | (would_leave < min_samples) | (n >= min_remove), "otherwise at least min_remove are removed (unless the cap applies)")
-        ctx.prove(capped | (would_leave < min_samples) | (n >= n1), "never fewer removed than the method chose")
+        ctx.prove(OR(capped, NOT(would_leave < min_samples), kept == min_samples), "if the method's choice leaves < min_samples, exactly min_samples are kept (unless the cap applies)")
+        ctx.prove(OR(capped, would_leave < min_samples, n >= min_remove), "otherwise at least min_remove are removed (unless the cap applies)")
+        ctx.prove(OR(capped, would_leave < min_samples, n >= n1), "never fewer removed than the method chose")
         if cap and ins.draw_constant:
             ctx.prove(kept + nlive <= ms, "with constant draws and a cap the next level does not exceed max_samples")
         ctx.cover("end")
@@ -298,8 +299,8 @@ def make_floor(m):
         ins.training_samples = st
         ins.log_likelihood_threshold = T
         ins.min_samples = min_samples
-        ins.replace_all = False
-        ins.weighted_kl = False
+        ins.replace_all = bool(ctx.choice("replace_all", 2))
+        ins.weighted_kl = bool(ctx.choice("weighted_kl", 2))
         ins.plot_training_data = False
         import datetime
         ins.training_time = datetime.timedelta()
